@@ -1,0 +1,154 @@
+//go:build verif
+
+package tls
+
+// Verification hook for property C25 (record protection). Thin exported
+// wrappers around unexported record-layer code; no logic of its own.
+
+import (
+	"crypto/cipher"
+	"hash"
+	"io"
+	"net"
+	"sync/atomic"
+	"time"
+)
+
+// ZVC25Half wraps one halfConn.
+type ZVC25Half struct{ hc halfConn }
+
+// ZVC25NewHalf builds a halfConn with the given protection state. ciph is nil,
+// a cipher.Stream, a cbcMode (BlockSize/CryptBlocks/SetIV) or a value returned
+// by ZVC25PrefixNonceAEAD / ZVC25XorNonceAEAD.
+func ZVC25NewHalf(version uint16, ciph interface{}, mac hash.Hash, seq [8]byte) *ZVC25Half {
+	h := &ZVC25Half{}
+	h.hc.version = version
+	h.hc.cipher = ciph
+	h.hc.mac = mac
+	h.hc.seq = seq
+	return h
+}
+
+func (h *ZVC25Half) Encrypt(record, payload []byte, rand io.Reader) ([]byte, error) {
+	return h.hc.encrypt(record, payload, rand)
+}
+
+func (h *ZVC25Half) Decrypt(record []byte) ([]byte, byte, error) {
+	p, t, err := h.hc.decrypt(record)
+	return p, byte(t), err
+}
+
+func (h *ZVC25Half) Seq() [8]byte          { return h.hc.seq }
+func (h *ZVC25Half) ExplicitNonceLen() int { return h.hc.explicitNonceLen() }
+
+func ZVC25ExtractPadding(payload []byte) (int, byte) { return extractPadding(payload) }
+func ZVC25RoundUp(a, b int) int                      { return roundUp(a, b) }
+func ZVC25MacSHA1(key []byte) hash.Hash              { return macSHA1(key) }
+func ZVC25MacSHA256(key []byte) hash.Hash            { return macSHA256(key) }
+
+// ZVC25PrefixNonceAEAD is the body of aeadAESGCM with the inner AEAD supplied.
+func ZVC25PrefixNonceAEAD(inner cipher.AEAD, noncePrefix []byte) interface{} {
+	ret := &prefixNonceAEAD{aead: inner}
+	copy(ret.nonce[:], noncePrefix)
+	return ret
+}
+
+// ZVC25XorNonceAEAD is the body of aeadChaCha20Poly1305 / aeadAESGCMTLS13 with the inner AEAD supplied.
+func ZVC25XorNonceAEAD(inner cipher.AEAD, nonceMask []byte) interface{} {
+	ret := &xorNonceAEAD{aead: inner}
+	copy(ret.nonceMask[:], nonceMask)
+	return ret
+}
+
+const (
+	ZVC25MaxPlaintext       = maxPlaintext
+	ZVC25MaxCiphertext      = maxCiphertext
+	ZVC25MaxCiphertextTLS13 = maxCiphertextTLS13
+)
+
+type zvC25Conn struct {
+	in  []byte
+	out []byte
+}
+
+func (c *zvC25Conn) Read(p []byte) (int, error) {
+	if len(c.in) == 0 {
+		return 0, io.EOF
+	}
+	n := copy(p, c.in)
+	c.in = c.in[n:]
+	return n, nil
+}
+func (c *zvC25Conn) Write(p []byte) (int, error)      { c.out = append(c.out, p...); return len(p), nil }
+func (c *zvC25Conn) Close() error                     { return nil }
+func (c *zvC25Conn) LocalAddr() net.Addr              { return nil }
+func (c *zvC25Conn) RemoteAddr() net.Addr             { return nil }
+func (c *zvC25Conn) SetDeadline(time.Time) error      { return nil }
+func (c *zvC25Conn) SetReadDeadline(time.Time) error  { return nil }
+func (c *zvC25Conn) SetWriteDeadline(time.Time) error { return nil }
+
+// ZVC25Conn wraps a Conn over an in-memory transport.
+type ZVC25Conn struct {
+	c  *Conn
+	nc *zvC25Conn
+}
+
+// ZVC25NewConn builds a Conn whose in/out halves carry the given protection.
+func ZVC25NewConn(vers uint16, haveVers, handshakeComplete, dynDisabled, buffering bool, rand io.Reader,
+	in, out *ZVC25Half, bytesSent, packetsSent int64, wire []byte) *ZVC25Conn {
+	nc := &zvC25Conn{in: wire}
+	c := &Conn{conn: nc, vers: vers, haveVers: haveVers, config: &Config{DynamicRecordSizingDisabled: dynDisabled, Rand: rand}}
+	if handshakeComplete {
+		atomic.StoreUint32(&c.handshakeStatus, 1)
+	}
+	for _, p := range []struct {
+		dst *halfConn
+		src *ZVC25Half
+	}{{&c.in, in}, {&c.out, out}} {
+		if p.src != nil {
+			p.dst.version = p.src.hc.version
+			p.dst.cipher = p.src.hc.cipher
+			p.dst.mac = p.src.hc.mac
+			p.dst.seq = p.src.hc.seq
+		}
+	}
+	c.buffering = buffering
+	c.bytesSent = bytesSent
+	c.packetsSent = packetsSent
+	return &ZVC25Conn{c: c, nc: nc}
+}
+
+func (z *ZVC25Conn) MaxPayloadSizeForWrite(typ byte) int {
+	return z.c.maxPayloadSizeForWrite(recordType(typ))
+}
+
+func (z *ZVC25Conn) WriteRecord(typ byte, data []byte) (int, error) {
+	z.c.out.Lock()
+	defer z.c.out.Unlock()
+	return z.c.writeRecordLocked(recordType(typ), data)
+}
+
+func (z *ZVC25Conn) ReadRecord() error {
+	z.c.in.Lock()
+	defer z.c.in.Unlock()
+	return z.c.readRecord()
+}
+
+// Observers.
+func (z *ZVC25Conn) Wire() []byte {
+	if z.c.buffering {
+		return z.c.sendBuf
+	}
+	return z.nc.out
+}
+func (z *ZVC25Conn) Counters() (bytesSent, packetsSent int64) { return z.c.bytesSent, z.c.packetsSent }
+func (z *ZVC25Conn) OutSeq() [8]byte                          { return z.c.out.seq }
+func (z *ZVC25Conn) InSeq() [8]byte                           { return z.c.in.seq }
+func (z *ZVC25Conn) RetryCount() int                          { return z.c.retryCount }
+func (z *ZVC25Conn) Input() []byte {
+	b := make([]byte, z.c.input.Len())
+	z.c.input.ReadAt(b, z.c.input.Size()-int64(z.c.input.Len()))
+	return b
+}
+func (z *ZVC25Conn) Hand() []byte     { return z.c.hand.Bytes() }
+func (z *ZVC25Conn) RawInputLen() int { return z.c.rawInput.Len() }
